@@ -21,6 +21,7 @@ from harness.common import VERIF, Ctx, cbool, clist, coq_make, cstr, parallel_wo
 from harness.translators import universe as tr
 
 CUSTOM = {"deadlock"}
+RAW: dict = {}      # ident -> raw configuration read from the YAML (filled by payloads_for)
 IDENT = re.compile(r"[A-Za-z_][A-Za-z0-9_]*\Z")
 KIND = {"governor": "KGovernor", "skypix": "KSkyPix", "dimension": "KDimension", "combination": "KCombination"}
 
@@ -279,6 +280,19 @@ def check_universe(ctx: Ctx, ident: str, res, cases_univ):
             if x != e["name"] and (x not in pos or pos[x] >= pos[e["name"]]):
                 ctx.oracle_fail("universe:order", {"universe": ident, "element": e["name"], "dependency": x},
                                 "universe order does not put a dependency before its dependent")
+    # the dependencies of the built universe are the ones the configuration declares
+    raw = RAW.get(ident)
+    if raw is not None:
+        built = {e["name"]: e for e in desc}
+        for r in raw["elements"]:
+            b = built.get(r["name"])
+            if b is None:
+                ctx.oracle_fail("universe:element-lost", {"universe": ident, "element": r["name"]}, "a configured element is missing from the universe")
+                continue
+            if set(b["implied"]) != set(r["implies"]) or not set(r["requires"]) <= set(b["required"]):
+                ctx.oracle_fail("universe:declared-dependency", {"universe": ident, "element": r["name"], "declared": {"requires": r["requires"], "implies": r["implies"]},
+                                                                 "built": {"required": b["required"], "implied": b["implied"]}},
+                                "the built universe does not carry the dependencies that the configuration declares")
     if not res.get("empty_ok", True):
         ctx.oracle_fail("canonical:empty", {"universe": ident}, "universe.empty is not the group of no dimensions")
     return Spec(desc)
@@ -376,6 +390,7 @@ def payloads_for(ctx: Ctx, ident: str, path: Path, *, exhaustive: bool, nrandom:
     base = {"path": str(path), "default": ident == "current", "seed": ctx.seed}
     # descriptions are needed to generate random subsets -> read them from the raw YAML (names only)
     raw = tr.read_raw(path)
+    RAW[ident] = raw
     names = []
     for s in raw["systems"]:
         names += [{"name": f"{s['name']}{lv}", "kind": "skypix"} for lv in range(s["min"], s["max"] + 1)]
